@@ -24,6 +24,7 @@ static const char* err_name(Error e) {
     case Error::kInvalidDisplacement: return "InvalidDisplacement";
     case Error::kInvalidOperandSize: return "InvalidOperandSize";
     case Error::kExpressionLabelNotBound: return "ExpressionLabelNotBound";
+    case Error::kInvalidAddress64Bit: return "InvalidAddress64Bit";
     default: break;
   }
   static char buf[32];
@@ -148,6 +149,32 @@ static std::string step(const std::string& line) {
     else if (w[1] == "addi8") e = x->add(x86::dword_ptr(L, d), 0x12);
     else if (w[1] == "movi32") e = x->mov(x86::dword_ptr(L, d), 0x11223344);
     else if (w[1] == "cmpi16") e = x->cmp(x86::word_ptr(L, d), 0x1234);
+    else if (w[1] == "ldeax") e = x->mov(x86::eax, x86::dword_ptr(L, d));
+    else if (w[1] == "steax") e = x->mov(x86::dword_ptr(L, d), x86::eax);
+    else if (w[1] == "ldrax") e = x->mov(x->zax(), x86::ptr(L, d));
+    else return "bad-op";
+    return answer(e);
+  }
+  if (op == "memabs" && w.size() == 4) {
+    if (P->arch == 2) return answer(Error::kInvalidInstruction);
+    x86::Assembler* x = P->xa.get();
+    if (!vh::parse_hex(w[3], u0)) return "bad-op";
+    auto M = [&](uint32_t size) {
+      x86::Mem m = x86::ptr(u0, size);
+      if (w[2] == "a") m.set_addr_abs();
+      else if (w[2] == "r") m.set_addr_rel();
+      return m;
+    };
+    if (w[2] != "d" && w[2] != "a" && w[2] != "r") return "bad-op";
+    Error e;
+    if (w[1] == "lea") e = x->lea(x->zax(), M(0));
+    else if (w[1] == "mov") e = x->mov(x86::ecx, M(4));
+    else if (w[1] == "addi8") e = x->add(M(4), 0x12);
+    else if (w[1] == "movi32") e = x->mov(M(4), 0x11223344);
+    else if (w[1] == "cmpi16") e = x->cmp(M(2), 0x1234);
+    else if (w[1] == "ldeax") e = x->mov(x86::eax, M(4));
+    else if (w[1] == "steax") e = x->mov(M(4), x86::eax);
+    else if (w[1] == "ldrax") e = x->mov(x->zax(), M(0));
     else return "bad-op";
     return answer(e);
   }
